@@ -94,7 +94,10 @@ def run_case(case):
         if len(present) == 1 and (case["selector"] == "classification" or present[0] in ("copy", "copy_", "qcopy", "qrename")):
             mp = ref[present[0]][0]
             rivals = [c for c in tcols if c != present[0] and ref[c][0] is not None and mp is not None and ref[c][0] >= mp - 1e-9 * max(1, abs(mp))]
-            if present[0] not in base and rivals and len(rivals) >= case["n_best"] and not (regression_quant and present[0] in q):
+            crowded = len(rivals) >= case["n_best"] or any(
+                c14.pair_assoc(case, X, present[0], r, present[0] in q)[1] > case["thresh_corr"] - 1e-12 for r in rivals if r in base
+            )
+            if present[0] not in base and rivals and crowded and not (regression_quant and present[0] in q):
                 res["dont_care"] = res.get("dont_care", 0) + 1  # another candidate is as associated as the copy (e.g. a copy with missing values)
             elif present[0] not in base:
                 finding = None
